@@ -22,6 +22,8 @@ ASSUMPTIONS = ["ABTI_get_wtime is monotonic enough for the deadline comparison"]
 RULES_DOC = dict(common.SHARED_DOC)
 RULES_DOC["X4"] = common.X4_DOC
 RULES_DOC["R6"] = "= C05.R1: the timed wait releases the mutex and enqueues inside one critical section of the condition's lock (a signal cannot fall between them and be lost until the timeout)"
+RULES_DOC["R7"] = "= C07.R6: the blocking pool pushes signal under the mutex for every push (each of several waiters in pop_wait / pop_timedwait is woken by its own push)"
+RULES_DOC["R8"] = "= C07.R1: the waiting pops of the shared pools release the pool lock on every path (a waiter that finds the queue empty does not leave with the lock)"
 RULES_DOC.update({
     "R1": "timeout code: reached only after now >= target_time, with the lock held; is_timedout (= state != READY) and all unlink stores under the lock",
     "R2": "unlink distinguishes head/middle/tail and repairs p_head, p_tail, predecessor->p_next and successor->p_prev accordingly",
@@ -444,3 +446,6 @@ def run(P, rep, tier):
     if "R6" in rep.instances:
         rep.instances["R5"] = rep.instances.pop("R6")
     common.borrow(rep, P, C05.rule_R1, "R6")
+    from . import C07
+    common.borrow(rep, P, C07.rule_R6, "R7")
+    common.borrow(rep, P, C07.rule_R1_R5, "R8", only=("R1",))
